@@ -12,6 +12,7 @@ import (
 
 	"github.com/ethereum/go-ethereum/accounts/abi"
 	"github.com/ethereum/go-ethereum/common"
+	"github.com/ethereum/go-ethereum/common/hexutil"
 	"github.com/ethereum/go-ethereum/core/types"
 	"github.com/ethereum/go-ethereum/crypto"
 	"github.com/shutter-network/shop-contracts/bindings"
@@ -169,6 +170,7 @@ func init() {
 	if ksABI, err = bindings.KeyperSetMetaData.GetAbi(); err != nil {
 		panic(err)
 	}
+	numSetsSelector = hexutil.Encode(ksmABI.Methods["getNumKeyperSets"].ID)
 }
 
 // Universe fixes the concrete values behind the tokens of one world.
